@@ -128,7 +128,7 @@ def mc_codec(ctx, k, part="both"):
         mut, pair, kk = (MC_QUICK if part != "pairs" else []), (MC_QUICK if part != "mutants" else []), 2
     else:
         mut = [n for n in names if n not in MC_HUGE]
-        pair, kk = mut, 4
+        pair, kk = mut, 5
     c = dict(k)
     full = [n for n in names if n not in MC_HUGE] if ctx.quick else names
     c.update({"Names": vf.tla_set(mut), "PairNames": vf.tla_set(pair), "FullNames": vf.tla_set(full), "K": str(kk)})
@@ -165,11 +165,11 @@ def static_consts():
 def gen_cases(ctx, binp, k, names, classes, tag, kk=None, big_limit=None, groups=None, sample_n=None, med_limit=None):
     """G-step: TLC derives the mutants (CodecMut) of the generator values and of seeded driver values of `names`."""
     import concurrent.futures as cf
-    kk = kk or (2 if ctx.quick else 5)
+    kk = kk or (2 if ctx.quick else 6)
     big_limit = big_limit or (400 if ctx.quick else 2500)
-    med_limit = med_limit or (120 if ctx.quick else 700)
-    sample_n = sample_n if sample_n is not None else (1 if ctx.quick else 6)
-    groups = groups or (4 if ctx.quick else 10)
+    med_limit = med_limit or (110 if ctx.quick else 900)
+    sample_n = sample_n if sample_n is not None else (0 if ctx.quick else 10)
+    groups = groups or (6 if ctx.quick else 12)
     valp = ""
     if sample_n > 0:
         valp = os.path.join(ctx.tmp, "values-%s.ndjson" % tag)
@@ -191,7 +191,7 @@ def gen_cases(ctx, binp, k, names, classes, tag, kk=None, big_limit=None, groups
         c.update({"ValuesFile": '"%s"' % valp, "Names": vf.tla_set(parts[ix]), "Classes": vf.tla_set(classes), "K": str(kk),
                   "BigLimit": str(big_limit), "MedLimit": str(med_limit)})
         return vf.gen_cases(ctx, "Codec_Gen", c, timeout=1500, heap="4g", tag="-%s-%d" % (tag, ix))
-    with cf.ThreadPoolExecutor(max_workers=4 if ctx.quick else 6) as ex:
+    with cf.ThreadPoolExecutor(max_workers=6) as ex:
         outs = list(ex.map(one, range(len(parts))))
     casep = os.path.join(ctx.tmp, "cases-%s.ndjson" % tag)
     seen = set()
